@@ -56,14 +56,27 @@ fn exec_nodevol(plan: &Plan, st: &mut Stats) -> Result<(), Violation> {
         let (gap, len, velocity, repeats, nlists, objv) = (op.arg(0), op.arg(1), op.arg(2), op.iarg(3).clamp(0, 9100) as i32, op.iarg(4).max(0) as usize, op.arg(5));
         let vols: Vec<f64> = op.a[6..].to_vec();
         let start = t + gap;
-        let pts = vec![PathControlPoint::new(Pos::new(0.0, 0.0)), PathControlPoint::new(Pos::new(len as f32, 0.0))];
-        let mut slider = HitObjectSlider { pos: Pos::new(100.0, 100.0), new_combo: false, combo_offset: 0, path: SliderPath::new(mode, pts, Some(len)), node_samples: Vec::new(), repeat_count: repeats, velocity };
+        // shape (fraction digits of the gap): a straight line with a declared length, or a Bezier of many / few anchors with
+        // or without one (the encoder walks all sliders with one shared set of curve buffers)
+        let shape = ((gap * 8.0) as i64).rem_euclid(8);
+        let (pts, declared) = match shape {
+            1 | 2 => {
+                let n = if shape == 1 { 14 } else { 3 };
+                let mut v = vec![PathControlPoint { pos: Pos::new(0.0, 0.0), path_type: Some(rosu_map::section::hit_objects::PathType::BEZIER) }];
+                for j in 1..n {
+                    v.push(PathControlPoint::new(Pos::new((len as f32) * j as f32 / n as f32, if j % 2 == 0 { 40.0 } else { -25.0 })));
+                }
+                (v, if (gap as i64) % 2 == 0 { None } else { Some(len) })
+            }
+            _ => (vec![PathControlPoint::new(Pos::new(0.0, 0.0)), PathControlPoint::new(Pos::new(len as f32, 0.0))], Some(len)),
+        };
+        let mut slider = HitObjectSlider { pos: Pos::new(100.0, 100.0), new_combo: false, combo_offset: 0, path: SliderPath::new(mode, pts, declared), node_samples: Vec::new(), repeat_count: repeats, velocity };
         let nodes = repeats as usize + 2;
         for k in 0..nlists.min(nodes + 2) {
             slider.node_samples.push(vol(vols[k % vols.len().max(1)]));
         }
         // room for the slider at its full length (a later edit only shortens it)
-        let duration = f64::from(repeats + 1) * len / velocity;
+        let duration = f64::from(repeats + 1) * (len * 3.0 + 200.0) / velocity;
         map.hit_objects.push(HitObject { start_time: start, kind: HitObjectKind::Slider(slider), samples: vol(objv) });
         t = if duration.is_finite() { start + duration.min(1e9) + 500.0 } else { start + 5000.0 };
     }
@@ -617,7 +630,7 @@ impl Scenario for C20 {
                     _ => nodes,
                 } as f64;
                 let objv = if rng.chance(1, 6) { -1.0 } else { *rng.pick(&[30.0, 55.0, 80.0, 100.0]) };
-                let mut a = vec![rng.range(0, 400) as f64, len, velocity, repeats, nlists, objv];
+                let mut a = vec![rng.range(0, 400) as f64 + rng.below(8) as f64 / 8.0, len, velocity, repeats, nlists, objv];
                 // volumes cycle through a short list of distinct values (an occasional -1: a node with an empty list)
                 let nv = 2 + rng.below(4);
                 for j in 0..nv {
